@@ -4,7 +4,7 @@
    decision on an external event (Ext/RT.v set_event). *)
 From Coq Require Import ZArith List Bool Arith Lia.
 Import ListNotations.
-From MV Require Import Time.Spec Static.Groups Sched.Timing Sched.Link Sched.GenView Gen.SchedulerFns Ext.RT.
+From MV Require Import Time.Spec Time.Ord Static.Groups Sched.Timing Sched.Link Sched.GenView Gen.SchedulerFns Ext.RT.
 Open Scope Z_scope.
 
 Lemma act_world d t : (1 <= d)%nat -> act [t] (mkI 1 1 (repeat 0 d)) = t :: repeat 0 (d - 1).
@@ -43,4 +43,44 @@ Theorem tie_set_event rt t until d : (1 <= d)%nat ->
 Proof.
   intros H. unfold remote_set_event, RT.set_event, runner_from_world_time. destruct rt as [r|]; cbn [negb]; [|reflexivity].
   destruct (t <? until); [|reflexivity]. split; [reflexivity|apply act_world; exact H].
+Qed.
+
+(* one round of next_step_settled's loop is the model's loop_eval: the simulator is done when its progress has reached until,
+   its next step is settled when the head of its queue equals its progress, and otherwise it sleeps until its progress reaches
+   the head of the queue - but not beyond the end of the run - or a newer step arrives *)
+Theorem tie_next_step_settled st s i : (1 <= depth st i)%nat ->
+  loop_eval st s i =
+  let x := s i in
+  match next_step_settled_round (prog x) (nexts x) (until st) (mkI 1 1 (repeat 0 (depth st i))) with
+  | SettleDone => upd s i (mkSim Done (prog x) (nexts x) (cur x) (last x) (newer x))
+  | Settled m => upd s i (mkSim (WaitDeps m) (prog x) (nexts x) (cur x) (last x) (newer x))
+  | SettleWait aw => upd s i (mkSim (Sleep aw) (prog x) (nexts x) (cur x) (last x) false)
+  end.
+Proof.
+  intros H. unfold loop_eval, next_step_settled_round, heap0. cbv zeta.
+  rewrite act_world by exact H. fold (world_time st i (until st)). fold (until_t st i).
+  replace (negb (thd (prog (s i)) <? until st)) with (until st <=? thd (prog (s i))) by (rewrite Z.leb_antisym; reflexivity).
+  destruct (until st <=? thd (prog (s i))); [reflexivity|].
+  destruct (tmin (nexts (s i))) as [m|]; [|reflexivity].
+  destruct (teq m (prog (s i))); [reflexivity|].
+  unfold sleep_until.
+  destruct (tlt_trichotomy m (until_t st i)) as [Hlt|[Heq|Hgt]].
+  - rewrite Hlt. rewrite (tlt_asym _ _ Hlt). reflexivity.
+  - subst m. rewrite tlt_irrefl. reflexivity.
+  - rewrite Hgt. rewrite (tlt_asym _ _ Hgt). reflexivity.
+Qed.
+
+(* notify_dependencies is the scheduling part of the model's finish_step: the ports the model is given are those keys of
+   sim.triggers (in the dict's order) that are present in the reply *)
+Theorem tie_notify_dependencies st i ot produced : forall ports_all s,
+  notify_dependencies (until st) (map (fun p => (p, trig st i p)) ports_all) produced ot s =
+  fold_left (fun s p => fold_left (fun s (dd : nat * interval) => let (dest, d) := dd in
+                 let tt := act ot d in
+                 if until st <=? thd tt then s else schedule s dest tt) (trig st i p) s)
+            (filter (fun p => existsb (Nat.eqb p) produced) ports_all) s.
+Proof.
+  unfold notify_dependencies. induction ports_all as [|p ps IH]; intros s; [reflexivity|].
+  cbn [map fold_left filter]. destruct (existsb (Nat.eqb p) produced); [|apply IH].
+  cbn [fold_left]. rewrite IH. f_equal.
+  apply fold_left_ext_in. intros a [dest d]. cbv zeta. rewrite Z.ltb_antisym. destruct (until st <=? thd (act ot d)); reflexivity.
 Qed.
